@@ -32,6 +32,8 @@ use vcore::{idx, CaseReport, Failure};
 
 const P: &str = "C19";
 
+pub static CLASS_SAMPLE: ClassSample = ClassSample::new();
+
 #[derive(Clone, Debug, Serialize, Deserialize, PartialEq)]
 pub enum AppKind {
   /// custom stream; `late`: drained only after shutdown returned
@@ -639,6 +641,9 @@ fn run_case(c: &E2eCase, dir: &Path) -> Result<CaseReport, Failure> {
   let cfg_nt = config_nontrivial(&c.loggers);
   // non-triviality (C19): same rule as the in-process engine
   rep.nontrivial = cfg_nt && multi_match;
+  if rep.nontrivial && matches!(c.how, How::Unwind | How::UnwindThread) {
+    CLASS_SAMPLE.offer(c);
+  }
   rep.executions = 1;
   Ok(rep)
 }
